@@ -13,7 +13,7 @@ from harness.trace import Run, result_str
 PROP = "C06"
 THEOREMS = ["Lbfgsb.C06.restore_pairs", "Lbfgsb.C06.restore_keeps_most_recent", "Lbfgsb.C06.restore_roundtrip", "Lbfgsb.C06.restart_noiter_same_pairs",
             "Lbfgsb.C06.restart_state", "Lbfgsb.C06.restart_continues", "Lbfgsb.C06.restart_same_result",
-            "Lbfgsb.C06.fresh_rinv", "Lbfgsb.C06.iterBody_rinv", "Lbfgsb.C06.reach_rinv", "Lbfgsb.C06.mainLoop_of_reach", "Lbfgsb.C06.restart_at_every_split"]
+            "Lbfgsb.C06.fresh_rinv", "Lbfgsb.C06.iterBody_rinv", "Lbfgsb.C06.reach_rinv", "Lbfgsb.C06.mainLoop_of_reach", "Lbfgsb.C06.restart_at_every_split", "Lbfgsb.C06.restart_at_every_split_complete"]
 MODULES = ["LbfgsbVerif.Props.C06", "LbfgsbVerif.Props.C06Run", "LbfgsbVerif.Props.C06Sim", "LbfgsbVerif.Props.C06Inv"]
 
 
